@@ -783,7 +783,11 @@ func wfHeapAxiom(h, fullSort, next string) string {
 		if w == "" {
 			return ""
 		}
-		return fmt.Sprintf("(assert (forall ((r Ref)) (! %s :pattern ((select %s r)))))", w, h)
+		// only objects that exist (below the allocation bound) are constrained: the contents of memory that is not
+		// allocated yet must stay arbitrary, because a callee's postcondition may describe the fields of the objects
+		// it allocates in heaps the call site does not havoc (an unguarded axiom contradicted "the new object's field
+		// holds another new object" and made everything after such a call vacuous)
+		return fmt.Sprintf("(assert (forall ((r Ref)) (! (=> (alloc r %s) %s) :pattern ((select %s r)))))", next, w, h)
 	}
 	// map value heap: (Array K V)
 	if strings.HasPrefix(inner, "(Array ") {
@@ -793,7 +797,7 @@ func wfHeapAxiom(h, fullSort, next string) string {
 			if w == "" {
 				return ""
 			}
-			return fmt.Sprintf("(assert (forall ((r Ref) (k %s)) (! %s :pattern ((select (select %s r) k)))))", kv[0], w, h)
+			return fmt.Sprintf("(assert (forall ((r Ref) (k %s)) (! (=> (alloc r %s) %s) :pattern ((select (select %s r) k)))))", kv[0], next, w, h)
 		}
 	}
 	return ""
